@@ -88,7 +88,7 @@ func (X *Exec) execInstr(fr *Frame, ins ssa.Instruction, st *State) {
 		arr := X.newRef(st, "mkslice")
 		n, s := X.E.ElemHeap(el)
 		X.setHeap(st, n, s, ts.Store(X.heap(st, n, s), arr, ts.ConstArray(s.Elem, X.zero(el))))
-		X.noteAlloc(st, ln, el, i.Pos())
+		X.noteAlloc(st, cp, el, i.Pos())
 		fr.Regs[i] = &Val{T: ts.Ctor(X.E.SliceS, arr, ts.IntLit(0), ln, cp), GT: i.Type()}
 	case *ssa.MakeMap:
 		mt := i.Type().Underlying().(*types.Map)
@@ -939,6 +939,12 @@ func (X *Exec) strOfBytes(st *State, b *Term, elem types.Type) *Term {
 }
 
 func (X *Exec) noteAlloc(st *State, n *Term, el types.Type, pos token.Pos) {
+	// ghost: largest element count of any make([]T, n) during the call
+	{
+		ts := X.E.TS
+		cur := X.heap(st, "GM|maxmake", SInt)
+		X.setHeap(st, "GM|maxmake", SInt, ts.Ite(ts.Lt(cur, n), n, cur))
+	}
 	// ghost: largest make([]byte, n) during the call, for allocation-bound contracts
 	if b, ok := el.Underlying().(*types.Basic); !ok || b.Kind() != types.Uint8 {
 		return
